@@ -20,6 +20,8 @@ lanes = int(opt("--lanes", "4"))
 tier = opt("--tier", "quick")
 sub = opt("--dir", "seeded")
 workers = opt("--workers", "4")
+xmx = opt("--xmx", "6g")
+base = opt("--base", "/tmp/verif_lanes")
 only_missing = "--only-missing" in args
 if only_missing: args.remove("--only-missing")
 root = os.path.join(V, sub)
@@ -31,7 +33,6 @@ if only_missing:
 if not ids:
     print("nothing to do"); sys.exit(0)
 lanes = min(lanes, len(ids))
-base = "/tmp/verif_lanes"
 shutil.rmtree(base, ignore_errors=True)
 # interleave so that every lane gets a mix of properties (slow and fast checks)
 parts = [ids[k::lanes] for k in range(lanes)]
@@ -46,7 +47,7 @@ for k, part in enumerate(parts):
     if os.path.exists(rp): os.remove(rp)
     tool = ("tools/benignscreen.py /repo" if sub == "benign" else "tools/seedtest.py --tier " + tier)
     script = ("mount --bind %s/repo /repo && mount --bind %s/verif /verif && cd /verif && "
-              "VERIF_WORKERS=%s python3 %s %s" % (d, d, workers, tool, " ".join(part)))
+              "VERIF_WORKERS=%s VERIF_XMX=%s python3 %s %s" % (d, d, workers, xmx, tool, " ".join(part)))
     log = open(os.path.join(base, "lane%d.log" % k), "w")
     procs.append((k, subprocess.Popen(["unshare", "-m", "sh", "-c", script], stdout=log, stderr=subprocess.STDOUT)))
 for k, p in procs:
